@@ -1,9 +1,10 @@
 """C12 — queue, stack, list: structural clauses (DESIGN §4 C12)."""
+import re
 import lm
 import rules
 from lm import S, strip, cval, walk
 from props.common import Ctx, has, fmt_facts
-from props.containers import node_bookkeeping, dtor_discipline, is_free_call, itr_removed_guards
+from props.containers import node_holders, node_bookkeeping, dtor_discipline, is_free_call, itr_removed_guards
 
 LEVEL = "other"
 Q, ST, L = "Lib/structs/queue.c", "Lib/structs/stack.c", "Lib/structs/list.c"
@@ -116,6 +117,9 @@ def run(ck, P):
     node_bookkeeping(ck, P, X, "C12.2-LEN", Q, {"queue_elem *"}, "_queue")
     node_bookkeeping(ck, P, X, "C12.2-LEN", ST, {"stack_elem *"}, "_stack")
     node_bookkeeping(ck, P, X, "C12.2-LEN", L, {"list_node *"}, "_list")
+    node_holders(ck, P, X, "C12.2-LEN", Q, "_queue", "queue_elem", {"head", "tail"})
+    node_holders(ck, P, X, "C12.2-LEN", ST, "_stack", "stack_elem", {"data"})
+    node_holders(ck, P, X, "C12.2-LEN", L, "_list", "list_node", {"data"})
 
     ck.rule("C12.2-DTOR", "R-WHO-CALLS: the element destructor is invoked only by the removing operations, once (not in a loop), under "
             "a non-NULL test; operations handing the element back (dequeue/pop/peek/find/itr_get_data) never reach it; "
@@ -221,6 +225,38 @@ def run(ck, P):
         steps = [ev for ev in f.events() if ev.kind == "assign" and S(ev.rhs).endswith("->next") and ev.block.id in f.in_loop_blocks()]
         ck.ob("C12.3-ORDER", f.site("walk next from data"), bool(starts) and bool(steps),
               "%s starts at %s and advances by %s" % (n, [S(e.rhs) for e in starts], [S(e.e) for e in steps]))
+
+    # "the first element matching the comparator or the pointer": one pass in which each node is tested with both criteria before the
+    # walk moves on — not a pass per criterion
+    for n in ("m_list_find", "m_list_remove"):
+        f = P.fn(n, L)
+        loops_ = [(t_, h_, f.natural_loop(t_, h_)) for (t_, h_) in f.back_edges()]
+        walks = [l_ for l_ in loops_ if any(ev.kind == "assign" and S(ev.rhs).endswith("->next") for b_ in l_[2] for ev in f.blocks[b_].events)]
+        cmpc = [e for e in f.calls() if e.callee is None and S(e.e["fn"]).endswith("->comp")]
+        idt = [b_.id for b_ in f.blocks.values() if b_.term and b_.term.get("cond") is not None and
+               re.search(r"->userptr == %s\b|\b%s == \S*->userptr" % (f.params[1]["name"], f.params[1]["name"]), S(b_.term["cond"]))]
+        ok1 = len(walks) == 1 and bool(cmpc) and bool(idt) and all(e.block.id in walks[0][2] for e in cmpc) and all(b_ in walks[0][2] for b_ in idt)
+        ck.ob("C12.3-ORDER", f.site("first match in one pass"), ok1,
+              "%s walks the list once, testing comparator and pointer identity on each node" % n if ok1 else
+              "%s walks the list %d time(s) / tests the two criteria in different passes: with two comparator-equal elements the one returned (or removed, "
+              "and destroyed) is not the first match in list order" % (n, len(walks)))
+    # iterator removal marks the position as removed on every path that removed something
+    for (unit_, pre_) in ((Q, "m_queue"), (ST, "m_stack")):
+        f = P.fn(pre_ + "_itr_remove", unit_)
+        badm = None
+        nrm = 0
+        for path in f.paths():
+            evs = list(rules.path_events(f, path))
+            rets_ = [e for e in evs if e.kind == "ret" and e.e is not None]
+            if not rets_ or (cval(rets_[-1].e) is not None and cval(rets_[-1].e) < 0):
+                continue
+            nrm += 1
+            if not any(e.kind == "assign" and S(e.lhs) == "itr->removed" and cval(e.rhs) == 1 for e in evs):
+                badm = path
+        ck.ob("C12.5-ITR-REMOVED", f.site("removal marks the position"), badm is None and nrm > 0,
+              "%d succeeding path(s) of %s all set itr->removed" % (nrm, f.name) if badm is None else
+              "%s can report a removal without setting itr->removed: the following next() skips the element that slid into the position, get_data() "
+              "returns an element that was never visited" % f.name, path=rules.fmt_path(f, badm) if badm else None)
 
     ck.not_decided += ["behaviour of arbitrary operation/iterator sequences (the list iterator's diff compensation in particular)",
                        "that a non-NULL value stored into tail by the iterator is the right predecessor node"]
